@@ -602,16 +602,25 @@ func main() {
 
 func raceStress(cfg *hx.Config) map[string]interface{} {
 	res := map[string]interface{}{}
-	out, err := exec.Command("go", "env", "CGO_ENABLED").Output()
-	if err != nil || strings.TrimSpace(string(out)) != "1" {
-		if _, err2 := exec.LookPath("gcc"); err2 != nil {
-			res["status"] = "skipped: cgo unavailable (the race detector needs cgo on linux/amd64)"
-			return res
+	// the orchestrator runs everything with CGO_ENABLED=0; ask the toolchain for its own default
+	var env []string
+	for _, e := range os.Environ() {
+		if !strings.HasPrefix(e, "CGO_ENABLED=") {
+			env = append(env, e)
 		}
 	}
-	if _, err := exec.LookPath("gcc"); err != nil {
-		res["status"] = "skipped: no C compiler (the race detector needs cgo on linux/amd64)"
+	q := exec.Command("go", "env", "CGO_ENABLED")
+	q.Env = env
+	out, err := q.Output()
+	if err != nil || strings.TrimSpace(string(out)) != "1" {
+		res["status"] = "skipped: go env CGO_ENABLED is not 1 (the race detector needs cgo on linux/amd64)"
 		return res
+	}
+	if _, err := exec.LookPath("gcc"); err != nil {
+		if _, err2 := exec.LookPath("cc"); err2 != nil {
+			res["status"] = "skipped: no C compiler (the race detector needs cgo on linux/amd64)"
+			return res
+		}
 	}
 	wd, _ := os.Getwd()
 	hdir := filepath.Join(wd, "harness")
@@ -621,7 +630,7 @@ func raceStress(cfg *hx.Config) map[string]interface{} {
 	bin := filepath.Join(cfg.Out, "c10stress")
 	cmd := exec.Command("go", "build", "-race", "-tags", "verif", "-o", bin, "./c10/stress")
 	cmd.Dir = hdir
-	cmd.Env = append(os.Environ(), "CGO_ENABLED=1", "GOFLAGS=-mod=mod", "GOPROXY=off", "GOSUMDB=off", "GOTOOLCHAIN=local")
+	cmd.Env = append(env, "GOFLAGS=-mod=mod", "GOPROXY=off", "GOSUMDB=off", "GOTOOLCHAIN=local")
 	if b, err := cmd.CombinedOutput(); err != nil {
 		res["status"] = "skipped: go build -race failed: " + strings.TrimSpace(string(b))
 		return res
@@ -644,23 +653,37 @@ func raceStress(cfg *hx.Config) map[string]interface{} {
 	}
 	text := buf.String()
 	_ = os.WriteFile(filepath.Join(cfg.Out, "race.log"), []byte(text), 0o644)
-	// summarise: for each report the two top vaxis frames
+	// summarise: for each report, the kind and the first /repo source line of both accesses
 	reports := strings.Split(text, "WARNING: DATA RACE")
-	frame := regexp.MustCompile(`(?m)^\s+(git\.sr\.ht/~rockorager/vaxis[^\s(]*)\(`)
+	loc := regexp.MustCompile(`^\s+/repo/(\S+:\d+)`)
 	seen := map[string]int{}
 	for _, rp := range reports[1:] {
-		fs := frame.FindAllStringSubmatch(rp, -1)
-		var top []string
-		for _, f := range fs {
-			name := strings.TrimPrefix(f[1], "git.sr.ht/~rockorager/")
-			if len(top) == 0 || top[len(top)-1] != name {
-				top = append(top, name)
+		var parts []string
+		lines := strings.Split(rp, "\n")
+		for i, l := range lines {
+			kind := ""
+			switch {
+			case strings.HasPrefix(l, "Read at"), strings.HasPrefix(l, "Previous read at"):
+				kind = "R"
+			case strings.HasPrefix(l, "Write at"), strings.HasPrefix(l, "Previous write at"):
+				kind = "W"
 			}
-			if len(top) == 4 {
-				break
+			if kind == "" {
+				continue
 			}
+			where := "?"
+			for _, m := range lines[i+1:] {
+				if m == "" {
+					break
+				}
+				if mm := loc.FindStringSubmatch(m); mm != nil {
+					where = mm[1]
+					break
+				}
+			}
+			parts = append(parts, kind+" "+where)
 		}
-		seen[strings.Join(top, " | ")]++
+		seen[strings.Join(parts, " vs ")]++
 	}
 	var keys []string
 	for k := range seen {
